@@ -31,6 +31,7 @@ import (
 	"os"
 	"sort"
 	"strings"
+	"syscall"
 	"time"
 
 	"github.com/33cn/chain33/common"
@@ -52,7 +53,7 @@ import (
 )
 
 const (
-	H        = 5 // ForkAccountBlacklist
+	H        = 14 // ForkAccountBlacklist
 	execOk   = types.ExecOk
 	evmChain = 3999
 	proxyTo  = "0x0000000000000000000000000000000000200005"
@@ -453,9 +454,11 @@ func evalCase(k kase) *verdict {
 		}
 		if k.Height < H {
 			hit("hit_exec_ok_below_activation", tys[idx] == execOk)
+			hit("hit_exec_ok_below_activation:"+strings.SplitN(k.Shape, ":", 2)[0], tys[idx] == execOk)
 			return nil
 		}
 		hit("hit_exec_refused_with_control_ok", tys[idx] != execOk && ctlOK)
+		hit("hit_exec_refused_with_control_ok:"+strings.SplitN(k.Shape, ":", 2)[0], tys[idx] != execOk && ctlOK)
 		if tys[idx] == execOk {
 			return &verdict{"exec:" + fpShape(k.Shape) + ":" + fpGroup(k) + ":ExecOk-at-or-after-activation",
 				fmt.Sprintf("height %d >= %d: receipt of %s (%s, address %q) is ExecOk", k.Height, H, k.Shape, gname, note)}
@@ -592,8 +595,16 @@ func setup() {
 		fmt.Println("HARNESS-ERROR ForkAccountBlacklist is not at", H)
 		os.Exit(2)
 	}
+	// the blockchain module prints a few start-up lines on stdout whatever the log level is
+	saved, _ := syscall.Dup(1)
+	if null, err := os.OpenFile(os.DevNull, os.O_WRONLY, 0); err == nil {
+		syscall.Dup2(int(null.Fd()), 1)
+	}
 	node = testnode.NewWithConfig(cfg, nil)
 	clog.SetLogLevel("crit")
+	waitTip(0)
+	syscall.Dup2(saved, 1)
+	syscall.Close(saved)
 	bc = consensus.NewBaseClient(cfg.GetModuleConfig().Consensus)
 	bc.VerifSetClient(node.GetClient())
 	waitTip(0)
@@ -691,7 +702,46 @@ func main() {
 	for _, sh := range all {
 		run(kase{Oracle: "delay", Shape: sh.Name})
 	}
-	// delayed transactions embedded in a block (none / CommitDelayTx): submitted now, judged at the end
+	// mempool: at every tip from the current one to H+1, one block at a time
+	for {
+		tip := node.GetLastBlock().Height
+		if tip < H-2 { // next block would still be below H-1: just move on
+			sendOK(sign(coinsTransfer(okR.b58, 1), gen, false))
+			waitTip(tip + 1)
+			time.Sleep(50 * time.Millisecond)
+			continue
+		}
+		for _, sh := range all {
+			for _, g := range groups {
+				run(kase{Oracle: "pool", Shape: sh.Name, Group: g[0], Pos: g[1]})
+			}
+		}
+		if node.GetLastBlock().Height != tip {
+			// only possible when the mempool accepted something it was sent in this phase (a violation already recorded)
+			r.Note("the chain moved from tip %d during a mempool phase", tip)
+		}
+		r.Count("pool_tips", 1)
+		r.Seen("tips", fmt.Sprint(tip))
+		if tip >= H+1 {
+			break
+		}
+		sendOK(sign(coinsTransfer(okR.b58, 1), gen, false))
+		waitTip(tip + 1)
+		time.Sleep(50 * time.Millisecond)
+	}
+	// controls of every shape must be acceptable to the same mempool
+	for _, sh := range all {
+		ctl, _ := sh.Build(false)
+		_, err := node.GetAPI().SendTx(ctl)
+		r.Seen("outcomes", fmt.Sprintf("pool-control:%s:accepted=%v", strings.SplitN(sh.Name, ":", 2)[0], err == nil))
+		if err != nil {
+			hit("vacuous_pool", true)
+			r.Note("vacuous pool shape %s: control refused by the mempool: %v", sh.Name, err)
+		} else {
+			hit("hit_pool_control_accepted", true)
+		}
+	}
+	// delayed transactions embedded in a block (none / CommitDelayTx): submitted after the mempool phases so that nothing but the harness moves the chain during them
 	type embedded struct {
 		shape       string
 		black, ctl  *types.Transaction
@@ -720,44 +770,7 @@ func main() {
 		emb = append(emb, e)
 	}
 	waitTip(node.GetLastBlock().Height + 1)
-	time.Sleep(50 * time.Millisecond)
-	if node.GetLastBlock().Height >= H-1 {
-		fmt.Println("HARNESS-ERROR chain is already at", node.GetLastBlock().Height, "before the mempool phases")
-		os.Exit(2)
-	}
-	// mempool: at every tip from the current one to H+1, one block at a time
-	for {
-		tip := node.GetLastBlock().Height
-		for _, sh := range all {
-			for _, g := range groups {
-				run(kase{Oracle: "pool", Shape: sh.Name, Group: g[0], Pos: g[1]})
-			}
-		}
-		if node.GetLastBlock().Height != tip {
-			fmt.Println("HARNESS-ERROR the chain moved during a mempool phase")
-			os.Exit(2)
-		}
-		r.Count("pool_tips", 1)
-		r.Seen("tips", fmt.Sprint(tip))
-		if tip >= H+1 {
-			break
-		}
-		sendOK(sign(coinsTransfer(okR.b58, 1), gen, false))
-		waitTip(tip + 1)
-		time.Sleep(50 * time.Millisecond)
-	}
-	// controls of every shape must be acceptable to the same mempool
-	for _, sh := range all {
-		ctl, _ := sh.Build(false)
-		_, err := node.GetAPI().SendTx(ctl)
-		r.Seen("outcomes", fmt.Sprintf("pool-control:%s:accepted=%v", strings.SplitN(sh.Name, ":", 2)[0], err == nil))
-		if err != nil {
-			hit("vacuous_pool", true)
-			r.Note("vacuous pool shape %s: control refused by the mempool: %v", sh.Name, err)
-		} else {
-			hit("hit_pool_control_accepted", true)
-		}
-	}
+	time.Sleep(100 * time.Millisecond)
 	// let the embedded delays (1 s) run out, move the chain twice, then look for the inner transactions
 	time.Sleep(1200 * time.Millisecond)
 	for i := 0; i < 3; i++ {
@@ -786,6 +799,11 @@ func main() {
 	for _, c := range []string{"hit_exec_ok_below_activation", "hit_exec_refused_with_control_ok", "hit_pack_taken_below_activation", "hit_pack_skipped_with_control_taken", "hit_pool_rejected", "hit_pool_control_accepted", "hit_delay_rejected_with_control_accepted"} {
 		r.Floors[c] = 1
 	}
+	for _, kind := range []string{"from", "to", "proxied"} {
+		r.Floors["hit_exec_ok_below_activation:"+kind] = 1
+		r.Floors["hit_exec_refused_with_control_ok:"+kind] = 1
+	}
+	r.Floors["hit_delay_block_control_executed"] = 1
 	r.Floors["tips"] = 3
 	r.Finish()
 }
